@@ -14,6 +14,10 @@ for d in seeded/C*-*/; do
     printf '%s\t%s\tno (the code it changes was repaired since)\t-\t-\t-\n' $id $prop >> $out
     git -C /repo worktree remove --force $wt; continue
   fi
+  if git -C $wt grep -q '^<<<<<<< ' 2>/dev/null || ! (cd $wt && GOFLAGS=-mod=mod GOPROXY=off GOSUMDB=off GOTOOLCHAIN=local go build ./... >/dev/null 2>&1); then
+    printf '%s\t%s\tno (the code it changes was repaired since)\t-\t-\t-\n' $id $prop >> $out
+    git -C /repo worktree remove --force $wt; continue
+  fi
   run() {
     o=$(VERIF_REPO=$wt ./check $prop --tier $1 2>/dev/null)
     n=$(echo "$o" | grep -c '^VIOLATION')
